@@ -111,3 +111,21 @@ def byte_ranges(x, base="top:buffer"):
                 walk(y)
     walk(x)
     return out
+
+
+def flatten_elems(t):
+    """rewrite element reads through the halves of split_at into reads of the underlying slice:
+    ((split_at(B, k), '.0.*[i]')) -> B[i],  ((split_at(B, k), '.1.*[i]')) -> B[k + i]   (B a plain label)"""
+    if isinstance(t, tuple):
+        if len(t) == 2 and isinstance(t[1], str) and isinstance(t[0], tuple) and len(t[0]) == 3 and isinstance(t[0][0], str) \
+                and re.search(r"split_at(_mut)?$", t[0][0]):
+            m = re.match(r"\.([01])(?:\.\*)*\[(\d+)\]$", t[1])
+            base = flatten_elems(t[0][1])
+            while isinstance(base, tuple) and len(base) == 2 and base[0] == "&":
+                base = base[1]
+            k = _int(t[0][2])
+            if m and isinstance(base, str) and k is not None:
+                i = int(m.group(2)) + (k if m.group(1) == "1" else 0)
+                return "%s[%d]" % (base, i)
+        return tuple(flatten_elems(x) for x in t)
+    return t
